@@ -7,7 +7,9 @@
    C18_history_independent - a call of a program that reads no persistent variable before overwriting it returns, after ANY history of calls,
    what it returns in a fresh process; vacuously every program without persistent variables (all skeletons, all extracted programs:
    C18_stateless_history_independent); refuted for a dtype-oblivious cache (C18_dtype_oblivious_cache_refuted - a model variant, NOT the code:
-   that the code keeps no such state is checked per run by harness/props/C18_hist.py). *)
+   that the code keeps no such state is checked per run by harness/props/C18_hist.py).  Estimator instances (round 8): the fitted attributes of one
+   object as persistent variables - C18_refit_history_independent (store-then-read, the shape of every fit method of the library, checked per run by a
+   must-define analysis), C18_refit_warm_start_refuted (a model variant, NOT the code), C18_refit_cast_warm_start_history_independent. *)
 From Coq Require Import List Bool Arith String.
 From TLV Require Import Model.Dtype Model.DtypeHist Proofs.DtypeProofs Proofs.DtypeHistProofs.
 Import ListNotations.
@@ -328,3 +330,32 @@ Example C18_f64_leaf_breaks_f32 : eval (mkenv F32 F32) st0 (Op In_ bare) = F64. 
 Example C18_numpy_f64_scalar_breaks_f32 : eval (mkenv F32 F32) st0 (Op In_ (Op (Leaf (LConst F64)) PyF)) = F64. Proof. reflexivity. Qed.
 Example C18_bool_leaf_breaks_f32 : eval (mkenv F32 B) st0 (Op In_ (Op PyF Mask)) = F64. Proof. reflexivity. Qed.
 Example C18_int_leaf_breaks_f32 : eval (mkenv F32 I64) st0 (Op In_ Mask) = F64. Proof. reflexivity. Qed.
+
+(* ---- estimator INSTANCES (round 8).  The fitted attributes of ONE estimator object are the persistent variables of the session "the same object fitted
+   again and again" (fitted = [self.decomposition_; self.errors_]).  What every wrapper class of the library does - compute from the data of this call,
+   store, read back (refit_prog) - passes hist_free, so C18_history_independent applies: after ANY history of calls on the same object the fit returns
+   exactly the data's dtype.  harness/props/C18_hist.py checks on every run that every fit method of every estimator class of the library has this
+   shape (must-define analysis: no fitted attribute is read before this call has overwritten it) and a refit row executes each class twice. *)
+Theorem C18_refit_history_independent : forall h t n, In t ctxs -> call_outs fitted h (mkcall (mkenv t t) refit_prog n) = [("out0", t)].
+Proof. exact refit_history_independent. Qed.
+Print Assumptions C18_refit_history_independent.
+(* REFUTED for a fit with a warm start from the previous decomposition (a model variant, NOT the code; the mutation class the static analysis and the
+   refit rows are shown to catch): ONE double-precision fit anywhere in the life of the object and every later single-precision fit of the same object
+   returns float64, although the same fit of a fresh object returns float32; induction over the history of fits *)
+Theorem C18_refit_warm_start_refuted : forall ts, (forall t, In t ts -> t = F32 \/ t = F64) -> In F64 ts ->
+  call_outs fitted (map (fit_call warm_refit_prog) ts) (fit_call warm_refit_prog F32) = [("out0", F64)] /\
+  isolated_outs (fit_call warm_refit_prog F32) = [("out0", F32)].
+Proof. exact warm_refit_widens. Qed.
+Print Assumptions C18_refit_warm_start_refuted.
+(* ... and harmless when the remembered value reaches the new fit only through a cast into the context of the current data *)
+Theorem C18_refit_cast_warm_start_history_independent : forall h t n, In t ctxs ->
+  call_outs fitted h (mkcall (mkenv t t) cast_warm_refit_prog n) = [("out0", t)].
+Proof. exact cast_warm_refit_history_independent. Qed.
+Print Assumptions C18_refit_cast_warm_start_history_independent.
+Example C18_refit_nonvacuous :
+  hist_free fitted refit_prog = true /\ hist_free fitted warm_refit_prog = false /\ hist_free fitted cast_warm_refit_prog = true /\
+  call_outs fitted [fit_call warm_refit_prog F64] (fit_call warm_refit_prog F32) = [("out0", F64)] /\
+  isolated_outs (fit_call warm_refit_prog F32) = [("out0", F32)] /\
+  call_outs fitted [fit_call warm_refit_prog C128] (fit_call warm_refit_prog C64) = [("out0", C128)] /\
+  call_outs fitted [fit_call refit_prog F64] (fit_call refit_prog F32) = [("out0", F32)].
+Proof. exact refit_examples. Qed.
